@@ -7,3 +7,7 @@ mod k_time;
 mod k_gen;
 #[cfg(kani)]
 mod k_agg;
+#[cfg(kani)]
+mod k_cut;
+#[cfg(kani)]
+mod k_backend;
